@@ -655,8 +655,19 @@ func child(batch int, seed int64, tier, outDir string) {
 			v := mkVerifier(kind, level, nil)
 			if rng.Bool() {
 				cid := id + " " + cls + " verifier=" + kind + " " + level
+				var vv notation.Verifier = v
+				if rng.Intn(3) == 0 {
+					// a decorator that embeds the interface (logging, metrics, retries): only Verify is visible through it
+					vv = struct{ notation.Verifier }{v}
+					cid += " decorated"
+				}
+				ref := "r.io/a@" + desc.Digest.String()
+				if rng.Intn(4) == 0 {
+					ref = "r.io/a:v1" // a tag-only reference: no statement applies to it
+					cid += " tag-reference"
+				}
 				run("notation.Verify", cid, in, func() {
-					_, outs, err := notation.Verify(ctx, v, scriptedRepo{desc, in, f}, notation.VerifyOptions{ArtifactReference: "r.io/a@" + desc.Digest.String(), MaxSignatureAttempts: 1 + rng.Intn(2)})
+					_, outs, err := notation.Verify(ctx, vv, scriptedRepo{desc, in, f}, notation.VerifyOptions{ArtifactReference: ref, MaxSignatureAttempts: 1 + rng.Intn(2)})
 					if err == nil && len(outs) == 0 {
 						viol("pair-consistency", "notation.Verify", "notation.Verify ("+cid+"): no error and no outcome", nil)
 					}
